@@ -184,8 +184,12 @@ def run_workers(prop, seed, tier, budget):
 
 def merge(results):
     agg = dict(stats=collections.Counter(), dist=collections.Counter(), violations=[], k2_broken=[], known_hits=collections.Counter(),
-               samples=[], distinct_nontrivial=0)
+               samples=[], distinct_nontrivial=0, known=[], rule=None)
     for r in results:
+        for k in r.get('known', []):
+            if k['id'] not in [x['id'] for x in agg['known']]:
+                agg['known'].append(k)
+        agg['rule'] = agg['rule'] or r.get('rule')
         agg['stats'].update(r.get('stats', {}))
         agg['dist'].update(r.get('dist', {}))
         agg['violations'] += r.get('violations', [])
@@ -227,6 +231,11 @@ def main():
     level = entry['level_claimed']['category'] if entry else 'proof'
     violations = []      # (message, replay path)
     notes = []
+    rd = os.path.join(ROOT, 'evidence', 'replay')
+    if os.path.isdir(rd):
+        for f in os.listdir(rd):
+            if f.startswith(prop + '-'):
+                os.remove(os.path.join(rd, f))
 
     ok_build, build_out = build()
     obligations_broken = []
@@ -241,7 +250,7 @@ def main():
 
     budget = {'quick': 1200, 'thorough': 16000}[tier]
     agg = dict(stats=collections.Counter(), dist=collections.Counter(), violations=[], k2_broken=[], known_hits=collections.Counter(),
-               samples=[], distinct_nontrivial=0)
+               samples=[], distinct_nontrivial=0, known=[], rule=None)
     corpus = dict(regressions=[], known=[])
     worker_errors = []
     if os.path.exists(os.path.join(ROOT, 'coq', 'Extract', 'model_driver')):
@@ -254,7 +263,7 @@ def main():
     else:
         worker_errors.append('model driver missing')
 
-    for k in corpus.get('known', []):
+    for k in corpus.get('known', []) + agg.get('known', []):
         print('KNOWN-FINDING: property=%s %s: %s' % (prop, k['id'], k['what']))
     idx = 0
     for r in corpus.get('regressions', []):
@@ -295,7 +304,7 @@ def main():
                   print_assumptions=dict(closed=thm.get('closed', 0), axioms=thm.get('axioms', [])),
                   evaluations=int(st.get('evaluations', 0)),
                   distinct_nontrivial=int(agg['distinct_nontrivial']),
-                  rule='programs grown by harness/gen.py (profiles and collaborators per harness/props.py), 2-4 random schedules each '
+                  rule=agg.get('rule') or 'programs grown by harness/gen.py (profiles and collaborators per harness/props.py), 2-4 random schedules each '
                        '(quiescent-batch and step-granular) chosen online against the real engine on the virtual loop; a case is '
                        'non-trivial if its schedule completes >= 2 gates and the program has >= 3 nodes or a control construct; '
                        'distinct = distinct (program, explicit action list)',
